@@ -104,7 +104,10 @@ func (t *Table) AddRoute(route *Route) bool {
 		}
 	}
 
-	key := route.Network.String()
+	// Store and key the route by its canonical network so that every spelling of one
+	// network (host bits set, IPv4-mapped IPv6) shares a single, metric-sorted entry list.
+	network := canonicalNetwork(route.Network)
+	key := network.String()
 	now := time.Now()
 
 	t.mu.Lock()
@@ -118,6 +121,7 @@ func (t *Table) AddRoute(route *Route) bool {
 			if route.Sequence > r.Sequence ||
 				(route.Sequence == r.Sequence && route.Metric < r.Metric) {
 				cloned := route.Clone()
+				cloned.Network = network
 				cloned.LastUpdate = now
 				t.routes[key][i] = cloned
 				t.sortRoutes(key)
@@ -129,10 +133,36 @@ func (t *Table) AddRoute(route *Route) bool {
 
 	// New route from this origin
 	cloned := route.Clone()
+	cloned.Network = network
 	cloned.LastUpdate = now
 	t.routes[key] = append(t.routes[key], cloned)
 	t.sortRoutes(key)
 	return true
+}
+
+// canonicalNetwork returns the network in the form the table stores and keys it by:
+// the address masked by the prefix, and IPv4 networks (including IPv4-mapped IPv6 ones)
+// as a 4-byte address with a 4-byte mask. It contains exactly the addresses the
+// argument contains. Two spellings of one network, such as 10.1.2.3/8 and 10.0.0.0/8
+// or ::ffff:10.0.0.0/104, therefore share one key, and the mask length of a stored
+// route is its prefix length within its own address family. Networks whose address
+// and mask lengths do not fit together are copied unchanged (they contain nothing).
+// The result never shares memory with the argument.
+func canonicalNetwork(n *net.IPNet) *net.IPNet {
+	if n == nil {
+		return nil
+	}
+	ip, mask := n.IP, n.Mask
+	if ip4 := ip.To4(); ip4 != nil {
+		ip = ip4
+		if len(mask) == net.IPv6len {
+			mask = mask[12:] // as net.IPNet.Contains does
+		}
+	}
+	if len(mask) != len(ip) || (len(ip) != net.IPv4len && len(ip) != net.IPv6len) {
+		return &net.IPNet{IP: append(net.IP(nil), n.IP...), Mask: append(net.IPMask(nil), n.Mask...)}
+	}
+	return &net.IPNet{IP: ip.Mask(mask), Mask: append(net.IPMask(nil), mask...)}
 }
 
 // sortRoutes sorts routes for a key by metric (lowest first).
@@ -149,7 +179,7 @@ func (t *Table) RemoveRoute(network *net.IPNet, originAgent identity.AgentID) bo
 		return false
 	}
 
-	key := network.String()
+	key := canonicalNetwork(network).String()
 
 	t.mu.Lock()
 	defer t.mu.Unlock()
@@ -274,7 +304,7 @@ func (t *Table) GetRoute(network *net.IPNet) *Route {
 		return nil
 	}
 
-	key := network.String()
+	key := canonicalNetwork(network).String()
 
 	t.mu.RLock()
 	defer t.mu.RUnlock()
@@ -292,7 +322,7 @@ func (t *Table) GetAllRoutesForNetwork(network *net.IPNet) []*Route {
 		return nil
 	}
 
-	key := network.String()
+	key := canonicalNetwork(network).String()
 
 	t.mu.RLock()
 	defer t.mu.RUnlock()
@@ -367,7 +397,7 @@ func (t *Table) HasRoute(network *net.IPNet, originAgent identity.AgentID) bool 
 		return false
 	}
 
-	key := network.String()
+	key := canonicalNetwork(network).String()
 
 	t.mu.RLock()
 	defer t.mu.RUnlock()
